@@ -10,7 +10,8 @@
     instance exists only in OCaml, where the correspondence run compares the hand model with the library.
     A change of a formula, a comparison, a guard, a literal or an operand order in one of these C++ functions changes
     the generated term and breaks the corresponding lemma below before any case is run. *)
-From Coq Require Import ZArith Bool Reals Lra.
+From Coq Require Import ZArith Bool Reals Lra List Lia.
+Import ListNotations.
 From LP Require Import Num NumR C07_Model Gen_C07_Formulas.
 Local Open Scope Z_scope.
 
@@ -100,6 +101,154 @@ Proof. unfold g_PDF_Maxwell_Boltzmann, pdf_maxwell_boltzmann. norm. reflexivity.
 Lemma tie_CDF_Maxwell_Boltzmann x a :
   g_CDF_Maxwell_Boltzmann Ops pi_c gammaQ gammaP inv_gammaQ gammaLn inv_erf binom x a = cdf_maxwell_boltzmann Ops pi_c x a.
 Proof. unfold g_CDF_Maxwell_Boltzmann, cdf_maxwell_boltzmann. norm. reflexivity. Qed.
+
+(** ** Functions with counted loops, std::vector and std::pair parameters (tools/cxx2gallina_C07.py).
+    The translator turns  for(unsigned i = A; i <= B; i++) acc OP= e;  into the fixed fold combinators [g_for] / [g_forp]
+    (nat fuel = trip count); the lemmas below prove, by induction on the trip count / the vector, that each generated
+    fold is the hand model's Fixpoint, for every number of iterations. *)
+Lemma tie_PDF_Gauss_2D x y mean sigma :
+  g_PDF_Gauss_2D Ops pi_c gammaQ gammaP inv_gammaQ gammaLn inv_erf binom x y mean sigma
+  = pdf_gauss_2d Ops pi_c x y (fst mean) (snd mean) (fst sigma) (snd sigma).
+Proof. unfold g_PDF_Gauss_2D, pdf_gauss_2d. norm. reflexivity. Qed.
+
+Lemma for_cdf_binomial trials p : forall n i acc,
+  g_for (fun v_i v_cdf => rbind (g_PMF_Binomial Ops pi_c gammaQ gammaP inv_gammaQ gammaLn inv_erf binom trials p v_i)
+                                (fun h => Ok (nadd Ops v_cdf h))) i n acc
+  = cdf_binomial_loop Ops binom trials p i n acc.
+Proof.
+  induction n as [|n IH]; intros i acc; cbn [g_for cdf_binomial_loop]; [reflexivity|].
+  rewrite tie_PMF_Binomial. destruct (pmf_binomial Ops binom trials p i); cbn [rbind]; try reflexivity. apply IH.
+Qed.
+
+Lemma tie_CDF_Binomial trials p x :
+  g_CDF_Binomial Ops pi_c gammaQ gammaP inv_gammaQ gammaLn inv_erf binom trials p x = cdf_binomial Ops binom trials p x.
+Proof.
+  unfold g_CDF_Binomial, cdf_binomial, ngtb. norm. cbv zeta. rewrite for_cdf_binomial, Z.sub_0_r. reflexivity.
+Qed.
+
+Lemma for_sub_logs : forall n i acc,
+  g_for (fun v_i v_sum => Ok (nsub Ops v_sum (nln Ops (nofZ Ops v_i)))) i n acc = Ok (sub_logs Ops i n acc).
+Proof. induction n as [|n IH]; intros; cbn [g_for sub_logs rbind]; [reflexivity|apply IH]. Qed.
+
+Lemma tie_PMF_Poisson mu k : 0 <= k ->
+  g_PMF_Poisson Ops pi_c gammaQ gammaP inv_gammaQ gammaLn inv_erf binom mu k = pmf_poisson Ops mu k.
+Proof.
+  intros Hk. unfold g_PMF_Poisson, pmf_poisson. norm.
+  replace (k <? 0) with false by (symmetry; apply Z.ltb_ge; exact Hk). rewrite orb_false_r, Z.gtb_ltb.
+  cbv zeta. rewrite for_sub_logs. cbn [rbind]. replace (k + 1 - 2) with (k - 1) by lia. reflexivity.
+Qed.
+
+Lemma for_add_logs : forall n j acc,
+  g_forp (fun v_j a => nadd Ops a (nln Ops (nofZ Ops v_j))) j n acc = add_logs Ops j n acc.
+Proof. induction n as [|n IH]; intros; cbn [g_forp add_logs]; [reflexivity|apply IH]. Qed.
+
+Lemma tie_Log_Likelihood_Poisson s n b :
+  g_Log_Likelihood_Poisson Ops pi_c gammaQ gammaP inv_gammaQ gammaLn inv_erf binom s n b = log_likelihood_poisson Ops s n b.
+Proof.
+  unfold g_Log_Likelihood_Poisson, log_likelihood_poisson. norm. cbv zeta. rewrite for_add_logs.
+  replace (n + 1 - 1) with n by lia. reflexivity.
+Qed.
+
+Lemma tie_Likelihood_Poisson s n b :
+  g_Likelihood_Poisson Ops pi_c gammaQ gammaP inv_gammaQ gammaLn inv_erf binom s n b = likelihood_poisson Ops s n b.
+Proof. unfold g_Likelihood_Poisson, likelihood_poisson. rewrite tie_Log_Likelihood_Poisson. reflexivity. Qed.
+
+(* the index-based mixture loop over weights[dof] is the hand model's structural recursion over the weight list *)
+Lemma mix_ext (f g : T -> T -> res T) (E : forall a b, f a b = g a b) x : forall ws dof acc,
+  mix_loop Ops f x ws dof acc = mix_loop Ops g x ws dof acc.
+Proof.
+  induction ws as [|w r IH]; intros; cbn [mix_loop]; [reflexivity|]. rewrite E.
+  destruct (g x (nofZ Ops dof)); cbn [rbind]; try reflexivity. apply IH.
+Qed.
+
+Lemma for_mix (g : T -> T -> res T) x : forall ws pre dof acc, dof = Z.of_nat (length pre) ->
+  g_for (fun v_dof v_a => rbind (g x (nofZ Ops v_dof))
+           (fun h => Ok (nadd Ops v_a (nmul Ops (nth (Z.to_nat v_dof) (pre ++ ws) (n0 Ops)) h)))) dof (length ws) acc
+  = mix_loop Ops g x ws dof acc.
+Proof.
+  induction ws as [|w r IH]; intros pre dof acc Hd; cbn [g_for mix_loop length]; [reflexivity|].
+  replace (nth (Z.to_nat dof) (pre ++ w :: r) (n0 Ops)) with w
+    by (subst dof; rewrite Nat2Z.id, app_nth2, Nat.sub_diag by lia; reflexivity).
+  destruct (g x (nofZ Ops dof)); cbn [rbind]; try reflexivity.
+  replace (pre ++ w :: r) with ((pre ++ [w]) ++ r) by (rewrite <- app_assoc; reflexivity).
+  apply IH. rewrite app_length; cbn [length]; lia.
+Qed.
+
+Lemma tie_PDF_Chi_Bar_Square x ws :
+  g_PDF_Chi_Bar_Square Ops pi_c gammaQ gammaP inv_gammaQ gammaLn inv_erf binom x ws = pdf_chi_bar_square Ops gammaLn x ws.
+Proof.
+  unfold g_PDF_Chi_Bar_Square, pdf_chi_bar_square. norm. destruct (nleb Ops x (n0 Ops)); [reflexivity|]. cbv zeta.
+  destruct ws as [|w0 r]; [reflexivity|].
+  replace (Z.to_nat (Z.of_nat (length (w0 :: r)) - 1)) with (length r) by (cbn [length]; lia).
+  cbn [tl].
+  transitivity (mix_loop Ops (g_PDF_Chi_Square Ops pi_c gammaQ gammaP inv_gammaQ gammaLn inv_erf binom) x r 1 (n0 Ops)).
+  - exact (for_mix _ x r [w0] 1 (n0 Ops) eq_refl).
+  - apply mix_ext. intros; apply tie_PDF_Chi_Square.
+Qed.
+
+Lemma tie_CDF_Chi_Bar_Square x ws :
+  g_CDF_Chi_Bar_Square Ops pi_c gammaQ gammaP inv_gammaQ gammaLn inv_erf binom x ws = cdf_chi_bar_square Ops gammaP x ws.
+Proof.
+  unfold g_CDF_Chi_Bar_Square, cdf_chi_bar_square, ngtb. norm. destruct (nltb Ops x (n0 Ops)); [reflexivity|]. cbv zeta.
+  rewrite Z.sub_0_r, Nat2Z.id.
+  assert (E : forall acc, g_for (fun v_dof v_a => rbind (g_CDF_Chi_Square Ops pi_c gammaQ gammaP inv_gammaQ gammaLn inv_erf binom x (nofZ Ops v_dof))
+           (fun h => Ok (nadd Ops v_a (nmul Ops (nth (Z.to_nat v_dof) ws (n0 Ops)) h)))) 0 (length ws) acc
+          = mix_loop Ops (cdf_chi_square Ops gammaP) x ws 0 acc).
+  { intros acc. transitivity (mix_loop Ops (g_CDF_Chi_Square Ops pi_c gammaQ gammaP inv_gammaQ gammaLn inv_erf binom) x ws 0 acc).
+    - exact (for_mix _ x ws [] 0 acc eq_refl).
+    - apply mix_ext. intros; apply tie_CDF_Chi_Square. }
+  rewrite E. destruct (mix_loop Ops (cdf_chi_square Ops gammaP) x ws 0 (n0 Ops)) as [v| | |]; cbn [rbind]; try reflexivity.
+  destruct (nltb Ops (n1 Ops) v); reflexivity.
+Qed.
+
+(* the index-based loop over the three histograms is the hand model's fold over the zipped bins *)
+Lemma ofnat_eqb a b : Z.eqb (Z.of_nat a) (Z.of_nat b) = Nat.eqb a b.
+Proof. destruct (Nat.eqb_spec a b) as [->|H]; [apply Z.eqb_refl|apply Z.eqb_neq; lia]. Qed.
+
+Lemma for_binned : forall ps os bs pp po pb i acc,
+  length os = length ps -> length bs = length ps ->
+  i = Z.of_nat (length pp) -> length po = length pp -> length pb = length pp ->
+  g_for (fun v_i a => Ok (nadd Ops a (g_Log_Likelihood_Poisson Ops pi_c gammaQ gammaP inv_gammaQ gammaLn inv_erf binom
+            (nth (Z.to_nat v_i) (pp ++ ps) (n0 Ops)) (nth (Z.to_nat v_i) (po ++ os) 0) (nth (Z.to_nat v_i) (pb ++ bs) (n0 Ops)))))
+        i (length ps) acc
+  = Ok (fold_left (fun acc t => nadd Ops acc (log_likelihood_poisson Ops (fst (fst t)) (snd (fst t)) (snd t)))
+                  (combine (combine ps os) bs) acc).
+Proof.
+  induction ps as [|p ps IH]; intros os bs pp po pb i acc Ho Hb Hi Hpo Hpb; [reflexivity|].
+  destruct os as [|o os]; [discriminate|]. destruct bs as [|b bs]; [discriminate|].
+  cbn [g_for length combine fold_left rbind fst snd].
+  replace (nth (Z.to_nat i) (pp ++ p :: ps) (n0 Ops)) with p
+    by (subst i; rewrite Nat2Z.id, app_nth2, Nat.sub_diag by lia; reflexivity).
+  replace (nth (Z.to_nat i) (po ++ o :: os) 0) with o
+    by (subst i; rewrite Nat2Z.id, <- Hpo, app_nth2, Nat.sub_diag by lia; reflexivity).
+  replace (nth (Z.to_nat i) (pb ++ b :: bs) (n0 Ops)) with b
+    by (subst i; rewrite Nat2Z.id, <- Hpb, app_nth2, Nat.sub_diag by lia; reflexivity).
+  rewrite tie_Log_Likelihood_Poisson.
+  replace (pp ++ p :: ps) with ((pp ++ [p]) ++ ps) by (rewrite <- app_assoc; reflexivity).
+  replace (po ++ o :: os) with ((po ++ [o]) ++ os) by (rewrite <- app_assoc; reflexivity).
+  replace (pb ++ b :: bs) with ((pb ++ [b]) ++ bs) by (rewrite <- app_assoc; reflexivity).
+  cbn [length] in Ho, Hb.
+  apply IH; rewrite ?app_length; cbn [length]; lia.
+Qed.
+
+Lemma tie_Log_Likelihood_Poisson_Binned ps os bs :
+  g_Log_Likelihood_Poisson_Binned Ops pi_c gammaQ gammaP inv_gammaQ gammaLn inv_erf binom ps os bs
+  = log_likelihood_poisson_binned Ops ps os bs.
+Proof.
+  unfold g_Log_Likelihood_Poisson_Binned, log_likelihood_poisson_binned. norm. cbv zeta.
+  rewrite Nat2Z.id, Z.sub_0_r, Nat2Z.id, !ofnat_eqb.
+  set (bg := match bs with [] => repeat (n0 Ops) (length ps) | _ :: _ => bs end).
+  replace (if Nat.eqb (length bs) 0 then repeat (n0 Ops) (length ps) else bs) with bg by (destruct bs; reflexivity).
+  destruct (Nat.eqb (length os) (length ps)) eqn:E1; [|reflexivity].
+  destruct (Nat.eqb (length bg) (length ps)) eqn:E2; [|reflexivity].
+  cbn [negb orb]. apply Nat.eqb_eq in E1. apply Nat.eqb_eq in E2.
+  exact (for_binned ps os bg [] [] [] 0 (n0 Ops) E1 E2 eq_refl eq_refl eq_refl).
+Qed.
+
+Lemma tie_Likelihood_Poisson_Binned ps os bs :
+  g_Likelihood_Poisson_Binned Ops pi_c gammaQ gammaP inv_gammaQ gammaLn inv_erf binom ps os bs
+  = likelihood_poisson_binned Ops ps os bs.
+Proof. unfold g_Likelihood_Poisson_Binned, likelihood_poisson_binned. rewrite tie_Log_Likelihood_Poisson_Binned. reflexivity. Qed.
 
 End Tie.
 
